@@ -7,7 +7,9 @@
       FileStorage.pack        [remove Data.fs.old]                       (leftover of a previous pack)
       FileStoragePacker.pack  create Data.fs.pack; writes to Data.fs.pack …  (copyToPacktime, copyRest)
                               flush, close
-      FileStorage.pack        link Data.fs → Data.fs.old      (os.link; os.rename when links are unsupported)
+      FileStorage.pack        remove Data.fs.index            (`_clear_index`: the saved index describes the
+                                                              unpacked file — dd8808d)
+                              link Data.fs → Data.fs.old      (os.link; os.rename when links are unsupported)
                               replace Data.fs.pack → Data.fs  (os.replace)
                               [remove Data.fs.old]            (pack_keep_old = False)
       _save_index             create Data.fs.index.index_tmp; writes; remove Data.fs.index;
@@ -169,7 +171,8 @@ structure Run where
   /-- the directory when the pack starts -/
   d0 : Dir
   /-- everything before the swap: the packer's removal of the old .old, its creates / writes of
-      .pack, and the committers' operations on Data.fs, in any interleaving and at any byte cut -/
+      .pack, the removal of the saved index, and the committers' operations on Data.fs, in any
+      interleaving and at any byte cut -/
   preA : List Ev
   /-- does `os.link` work -/
   links : Bool
